@@ -21,6 +21,12 @@ def one(mut):
     tmp = tempfile.mkdtemp(prefix="mx-")
     res = {"mutant": mut, "caught_by": [], "analysis_error": [], "rules": {}}
     try:
+        meta = json.load(open(os.path.join(d, "meta.json")))
+        if meta.get("retired"):
+            res["retired"] = meta["retired"].get("why", "retired")
+    except Exception:
+        pass
+    try:
         shutil.copytree("/repo/asl-workflow-engine", os.path.join(tmp, "asl-workflow-engine"), ignore=shutil.ignore_patterns("__pycache__", "*.pyc"))
         p = subprocess.run(["git", "apply", os.path.join(d, "patch.diff")], cwd=tmp, stdout=subprocess.PIPE, stderr=subprocess.STDOUT, text=True)
         if p.returncode:
@@ -68,6 +74,11 @@ def main():
         head = subprocess.run(["git", "-C", "/repo", "rev-parse", "--short", "HEAD"], stdout=subprocess.PIPE, text=True).stdout.strip()
         with open(path, "w") as f:
             json.dump({"repo_head": head, "results": out}, f, indent=1)
+    retired = [m for m in muts if out[m].get("retired")]
+    for m in retired:
+        r = out[m]
+        print("%-5s RETIRED (must be silent: %s) %s" % (m, "silent" if not r["caught_by"] and not r["analysis_error"] else "ALARM " + ",".join(r["caught_by"] + r["analysis_error"]), r["retired"][:90]))
+    muts = [m for m in muts if m not in retired]
     for m in muts:
         r = out[m]
         own = m[:3]
